@@ -276,6 +276,29 @@ class Program:
         self._bodies = {}
         self._hir = {}
         self._norm = None
+        import norm
+        self.renames = norm.resolve_renames(self)       # old name -> new name of renamed pinned-tree functions
+        self.renamed_to = set(self.renames.values())
+        if self.renames:
+            # read the whole program under the old names: callee / instance fields of every body refer to the new one
+            import json as _json
+            txt = _json.dumps(facts)
+            for old_, new_ in self.renames.items():
+                txt = txt.replace(_json.dumps(new_), _json.dumps(old_)).replace(_json.dumps(new_)[:-1] + "::{", _json.dumps(old_)[:-1] + "::{")
+            facts = _json.loads(txt)
+            self.facts = facts
+            self.fns = facts["fns"]
+            self.adts = facts["adts"]
+            self.consts = facts["consts"]
+            norm.resolve_renames(self)
+            self.renamed_to = set()
+            olds = set(self.renames)
+            import hirq as _hq
+            for f_ in self.fns.values():
+                if "hir" in f_:
+                    for x in _hq.walk(f_["hir"]):
+                        if x.get("k") == "MCall" and x.get("callee") in olds:
+                            x["m"] = x["callee"].rsplit("::", 1)[-1]
 
     def has(self, name):
         return name in self.fns
@@ -335,6 +358,9 @@ class Program:
         import norm
         known = norm.known_fns()
         base = name.split("::{closure")[0]
+        for old_, new_ in getattr(self, "renames", {}).items():
+            if base == new_:
+                base = old_
         if known is None or base in known:
             return {base}
         _seen = _seen or set()
